@@ -188,7 +188,7 @@ func genPolicyCase() *rapid.Generator[tcase] {
 			statuses = append(statuses, r[0]-1, r[0], r[1], r[1]+1)
 		}
 		cd := p.Initial
-		advs := []int{0, 0, 0, 0, 1, 1, 2, p.Initial, p.Initial, p.Initial * p.Mult, p.Initial * p.Mult, 15, 29, 30, 31, 32, 31 + cd, 31 + cd*p.Mult, 30 + cd, 200}
+		advs := []int{0, 0, 0, 0, 0, 0, 0, 0, 0, 0, 0, 0, 0, 0, 0, 0, 1, 1, 1, 2, p.Initial, p.Initial, p.Initial * p.Mult, 15, 29, 30, 31, 32, 31 + cd, 31 + cd*p.Mult, 30 + cd, 200}
 		c := tcase{Policy: p, Seqs: genSeqs(t)}
 		c.Steps = genSteps(t, len(c.Seqs), p.Attempts, statuses, p.inCond, false, advs)
 		return c
@@ -241,6 +241,9 @@ func (j *judge) observe(i int, e event, verdict string) string {
 		preS = j.S.pre(e)
 		wants = j.S.wants(e)
 	}
+	if !tainted && j.finding == "C17-F2" && e.InCond && e.IDEq && !e.NewCall && verdict == vRetry && preS[j.n] {
+		j.D.armed[e.Seq] = true
+	}
 	okS := j.S.step(e, verdict)
 	okD := j.D.step(e, verdict)
 	if tainted {
@@ -249,13 +252,9 @@ func (j *judge) observe(i int, e event, verdict string) string {
 		}
 		r.Class("verdict-on-sequence-already-attributed-to-" + j.finding)
 	} else if !okS {
-		attributable := false
-		switch j.finding {
-		case "C17-F1":
-			attributable = okD && j.D.leakArmed[e.Seq]
-		case "C17-F2":
-			attributable = okD && e.IDEq && !e.NewCall && verdict == vRetry && preS[j.n]
-		}
+		// the defect machine predicts every verdict of this sequence so far, and the history of the
+		// sequence contains the defect's trigger (see machine.armed)
+		attributable := okD && j.D.armed[e.Seq]
 		if attributable && r.KnownFinding(j.finding, func() any { return map[string]any{"case": j.c, "step": i, "verdict": verdict, "statement_admits": wants} }) {
 			r.Class("attributed-to-" + j.finding)
 		} else {
@@ -266,6 +265,9 @@ func (j *judge) observe(i int, e event, verdict string) string {
 			return fmt.Sprintf("step %d (sequence %q, status in-condition=%v, new-call=%v, id==sequence-id=%v): verdict %q%s, attempts=%d; the statement admits %v",
 				i, e.Seq, e.InCond, e.NewCall, e.IDEq, verdict, asked, j.n, wants)
 		}
+	}
+	if !j.S.dead[e.Seq] && !j.D.dead[e.Seq] && j.S.atRest(e.Seq) && j.D.atRest(e.Seq) {
+		j.D.armed[e.Seq] = false
 	}
 	// ---- evidence classes (never part of the verdict) ----
 	r.Class("verdict:" + verdict)
